@@ -7103,7 +7103,7 @@ fn serialize_source<S>(
 where
   S: Serializer,
 {
-  serializer.serialize_u32(source.text.len() as u32)
+  serializer.serialize_u64(source.text.len() as u64)
 }
 
 fn serialize_source_bytes<S>(
@@ -7113,7 +7113,7 @@ fn serialize_source_bytes<S>(
 where
   S: Serializer,
 {
-  serializer.serialize_u32(source.len() as u32)
+  serializer.serialize_u64(source.len() as u64)
 }
 
 #[cfg(test)]
